@@ -11,11 +11,16 @@ import PhyloModel.Arena.LadderKey
 import PhyloModel.Arena.DistPrune
 /-! # C11 — editing operations have exactly their documented effect
 
-Arena level (`AR`): exact frames of `prune` and of the regrouping step of `merge_children` / `resolve`.
-Rose level (`DM`): splicing out unary nodes (`compress`) keeps every leaf-to-leaf path length.
-The executable operations (`AR.prune`, `compress`, `resolve picks`, `ladderize`, `rescale`, `mergeChildren`)
-are compared slot by slot with the crate after every call, and the documented effect is checked on the real
-result by rose-level expectations computed independently in the harness. -/
+Arena level (`AR`), all on the EXECUTABLE operations the driver runs against the crate: exact frames of `prune`
+and of the regrouping step of `merge_children` / `resolve`; loop postconditions of `compress` (no one-child
+non-root node left) and `resolve` (no node with more than two children, for every outcome of its random choices);
+`ladderize` changes nothing but the order inside child lists, its sort key IS the number of proper descendants and
+every child list of the result is the stable sort of the old one by that key; and — second half of this file — every
+leaf-to-leaf path length (the answer of `get_distance`) is unchanged by `compress` (whatever its outcome),
+`resolve`, `ladderize` and `prune`, and multiplied by `k` by `rescale k`.  Rose level (`DM`): splicing out unary
+nodes keeps every path length (kept as an independent statement of the same fact).
+The executable operations are compared slot by slot with the crate after every call, and the documented effect is
+checked on the real result by rose-level expectations computed independently in the harness. -/
 namespace C11
 open AR
 
